@@ -526,7 +526,20 @@ func (p *Program) inFullIndexLoop(info *types.Info, e ast.Expr, stop ast.Node) b
 // isCountedLoopOver matches the up- and down-counting loops over all indices of slice expression s with index variable i.
 func isCountedLoopOver(info *types.Info, l *ast.ForStmt, i types.Object, s ast.Expr) bool {
 	init, ok := l.Init.(*ast.AssignStmt)
-	if !ok || len(init.Lhs) != 1 || len(init.Rhs) != 1 || objOf(info, init.Lhs[0]) != i {
+	if !ok || len(init.Lhs) != len(init.Rhs) {
+		return false
+	}
+	// for i := ...  or  for i, n := 0, len(s)
+	var iInit ast.Expr
+	extra := map[types.Object]ast.Expr{}
+	for k, lh := range init.Lhs {
+		if o := objOf(info, lh); o == i {
+			iInit = init.Rhs[k]
+		} else if o != nil {
+			extra[o] = init.Rhs[k]
+		}
+	}
+	if iInit == nil {
 		return false
 	}
 	cond, ok := l.Cond.(*ast.BinaryExpr)
@@ -538,15 +551,23 @@ func isCountedLoopOver(info *types.Info, l *ast.ForStmt, i types.Object, s ast.E
 		return false
 	}
 	isLen := func(e ast.Expr) bool {
+		// the bound may be held in a variable of the init statement, or be a single-assignment temporary
+		if o := objOf(info, e); o != nil {
+			if d, ok := extra[o]; ok && !writesTo(info, l.Body, o) {
+				e = d
+			} else if curProgram != nil {
+				e = curProgram.DefExpr(e)
+			}
+		}
 		c, ok := ast.Unparen(e).(*ast.CallExpr)
 		return ok && IsBuiltinCall(info, c, "len") && len(c.Args) == 1 && sameExpr(info, c.Args[0], s)
 	}
 	// up: i := 0; i < len(s); i++
-	if v, ok := constInt(info, init.Rhs[0]); ok && v == 0 && cond.Op == token.LSS && isLen(cond.Y) && post.Tok == token.INC {
+	if v, ok := constInt(info, iInit); ok && v == 0 && cond.Op == token.LSS && isLen(cond.Y) && post.Tok == token.INC {
 		return true
 	}
 	// down: i := len(s)-1; i >= 0; i--
-	if b, ok := ast.Unparen(init.Rhs[0]).(*ast.BinaryExpr); ok && b.Op == token.SUB && isLen(b.X) {
+	if b, ok := ast.Unparen(iInit).(*ast.BinaryExpr); ok && b.Op == token.SUB && isLen(b.X) {
 		if one, ok := constInt(info, b.Y); ok && one == 1 {
 			if z, ok := constInt(info, cond.Y); ok && z == 0 && cond.Op == token.GEQ && post.Tok == token.DEC {
 				return true
